@@ -466,6 +466,19 @@ class C16(Prop):
             out.append(self.graph_case(rng, "graph%d" % c))
         for c in range(150 if quick else 1000):
             out.append(self.pairstr_case(rng, "pairstr%d" % c))
+        # spread the expensive cases evenly, so that no batch of the engine (400 cases, one 300 s timeout per batch and side)
+        # carries all of them: a loaded machine must not turn a slow batch into a "hang"
+        heavy = [c for c in out if c["name"].startswith(("big", "tall", "wide", "max"))]
+        light = [c for c in out if not c["name"].startswith(("big", "tall", "wide", "max"))]
+        if heavy:
+            step = max(1, len(light) // len(heavy))
+            merged, h = [], 0
+            for i, c in enumerate(light):
+                if i % step == 0 and h < len(heavy):
+                    merged.append(heavy[h]); h += 1
+                merged.append(c)
+            merged += heavy[h:]
+            out = merged
         return out
 
     # ------------------------------------------------------------------ comparison
@@ -480,6 +493,14 @@ class C16(Prop):
           * eslMSA_HASWGTS may be raised where the model leaves it down (single-sequence early return);
           * cluster numbering, order among equal sort keys, the kept set of the filter (see _tolerated)."""
         def bump(k): ctx.stats[k] = ctx.stats.get(k, 0) + 1
+        if any(l.startswith(("fault ", "atexit ")) for l in model_out):
+            # the MODEL process did not answer this case (batch timeout on a loaded machine): nothing to compare against
+            # beyond the lines it completed; the monitors still judge the implementation's output
+            bump("model_side_no_answer")
+            if ctx.stats["model_side_no_answer"] > 25:      # not load: the driver itself is broken
+                return (0, "<implementation answered>", "<model driver died or hung on more than 25 cases>")
+            model_out = model_out[:max(0, [i for i, l in enumerate(model_out) if l.startswith(("fault ", "atexit "))][0] - 1)]
+            impl_out = impl_out[:len(model_out)]
         n = max(len(impl_out), len(model_out))
         for i in range(n):
             a = impl_out[i] if i < len(impl_out) else "<missing>"
